@@ -168,3 +168,71 @@ Print Assumptions C16_split_bound_fixed.
 Print Assumptions C16_split_fixed_eq_split.
 Print Assumptions C16_segment_split_concat_fixed.
 Print Assumptions C16_nonvacuous_fixed.
+
+(** ---- the ACTION of whatever split() returns, for every class (added after seeded change C16-5; Lattice/SplitActionProofs.v).
+    For the classes the model does not slice (Dipole, RBend, Solenoid, Cavity, TransverseDeflectingCavity, Undulator, Marker,
+    BPM, Screen, Aperture, SpaceChargeKick, CustomTransferMap: [SOther]) split returns the element itself, so tracking the
+    pieces in turn IS tracking the element, for any tracking function; that the running code agrees on WHICH classes these are
+    is checked on every run (Lattice/SplitClasses.c16_class_check). *)
+From Cheetah Require Import Lattice.SplitClasses Lattice.SplitActionProofs.
+
+Theorem C16_unsplittable_track : forall (B : Type) (trk : sel -> B -> B) (res : Q) (c : string) (L : Q) (b : B),
+  fold_left (fun b p => trk p b) (split_fixed res (SOther c L)) b = trk (SOther c L) b /\
+  fold_left (fun b p => trk p b) (split res (SOther c L)) b = trk (SOther c L) b.
+Proof. exact unsplittable_track. Qed.
+
+(* the class-level correspondence checker accepts a Dipole returned as it is and rejects one sliced into drifts *)
+Example C16_class_check_nonvacuous :
+  c16_class_check (mkc16c "Dipole" (1#2) (1#10) 0 true [("Dipole"%string, 1#2)]) = true /\
+  c16_class_check (mkc16c "Dipole" (1#2) (1#10) 0 false
+     [("Drift"%string, 1#10); ("Drift"%string, 1#10); ("Drift"%string, 1#10); ("Drift"%string, 1#10); ("Drift"%string, 1#10)]) = false /\
+  c16_class_check (mkc16c "Drift" (1#2) (1#4) 0 false [("Drift"%string, 1#4); ("Drift"%string, 1#4)]) = true.
+Proof. vm_compute. repeat split; reflexivity. Qed.
+
+Close Scope Q_scope.
+Open Scope R_scope.
+
+(* n drift slices of total length L act like one drift of length L ... *)
+Theorem C16_drift_slices_track : forall (L E : R) (n : nat) (v : V7 R), n <> O ->
+  fold_left (fun v M => rmvec M v) (repeat (drift_map (L / INR n) E) n) v = rmvec (drift_map L E) v.
+Proof. exact drift_slices_track. Qed.
+
+(* ... so replacing an element (map M) by drift slices of the same total length preserves tracking ONLY IF M acts as the drift map *)
+Theorem C16_drift_replacement_only_if_drift_map : forall (M : M7 R) (L E : R) (n : nat), n <> O ->
+  (forall v, fold_left (fun v A => rmvec A v) (repeat (drift_map (L / INR n) E) n) v = rmvec M v) ->
+  forall v, rmvec M v = rmvec (drift_map L E) v.
+Proof. exact drift_replacement_only_if_drift_map. Qed.
+
+(* a dipole whose bending angle is switched off is NOT a drift when it has a gradient: with angle = 0 and no tilt its map is
+   base_rmatrix with its k1 (pole-face angles, gap and fringe integrals drop out) ... *)
+Theorem C16_dip_map_angle0 : forall L k1 e1 e2 gap fint fint_exit E : R, L <> 0 ->
+  dip_map L 0 k1 e1 e2 0 gap fint fint_exit E = base_untilted L k1 0 E.
+Proof. exact dip_map_angle0. Qed.
+
+(* ... which kicks a unit x-offset (R21 = -sqrt(k1) sin(sqrt(k1) L) <> 0), while a drift does not *)
+Theorem C16_gradient_dipole_not_drift_refuted : forall L k1 e1 e2 gap fint fint_exit E : R,
+  0 < k1 -> 0 < L -> sqrt k1 * L < PI ->
+  rmvec (dip_map L 0 k1 e1 e2 0 gap fint fint_exit E) (mk7 1 0 0 0 0 0 0) <> rmvec (drift_map L E) (mk7 1 0 0 0 0 0 0).
+Proof. exact gradient_dipole_not_drift. Qed.
+
+(* hence slicing a switched-off gradient dipole into drifts (seeded change C16-5) changes the tracking result *)
+Theorem C16_gradient_dipole_split_into_drifts_refuted : forall (L k1 e1 e2 gap fint fint_exit E : R) (n : nat),
+  n <> O -> 0 < k1 -> 0 < L -> sqrt k1 * L < PI ->
+  ~ (forall v, fold_left (fun v A => rmvec A v) (repeat (drift_map (L / INR n) E) n) v
+               = rmvec (dip_map L 0 k1 e1 e2 0 gap fint fint_exit E) v).
+Proof. exact gradient_dipole_split_into_drifts_refuted. Qed.
+
+(* non-vacuity: length 1/2, k1 = 3, five slices *)
+Example C16_gradient_dipole_instance : forall e1 e2 gap fint fint_exit E : R,
+  ~ (forall v, fold_left (fun v A => rmvec A v) (repeat (drift_map (/ 2 / INR 5) E) 5) v
+               = rmvec (dip_map (/ 2) 0 3 e1 e2 0 gap fint fint_exit E) v).
+Proof. exact gradient_dipole_instance. Qed.
+
+Print Assumptions C16_unsplittable_track.
+Print Assumptions C16_drift_slices_track.
+Print Assumptions C16_drift_replacement_only_if_drift_map.
+Print Assumptions C16_dip_map_angle0.
+Print Assumptions C16_gradient_dipole_not_drift_refuted.
+Print Assumptions C16_gradient_dipole_split_into_drifts_refuted.
+Print Assumptions C16_gradient_dipole_instance.
+Print Assumptions C16_class_check_nonvacuous.
